@@ -134,9 +134,18 @@ func valEqual(a, b reflect.Value) bool {
 	switch a.Kind() {
 	case reflect.Interface, reflect.Ptr:
 		if a.Kind() == reflect.Ptr {
-			switch a.Interface().(type) {
+			switch x := a.Interface().(type) {
 			case *ast.Object, *ast.Scope, *ast.CommentGroup:
 				return true
+			case *ast.Ident:
+				// identifiers are compared by the spelling found in the files
+				// (the loader may have mapped a renamed object back to its
+				// reference name in the type-checked tree)
+				y := b.Interface().(*ast.Ident)
+				if x == nil || y == nil {
+					return x == y
+				}
+				return origIdentName(x) == origIdentName(y)
 			}
 		}
 		if a.IsNil() || b.IsNil() {
@@ -445,4 +454,13 @@ func ruleGR4() Rule {
 				}
 			}
 		}}
+}
+
+func origIdentName(id *ast.Ident) string {
+	if p := core.CurrentProgram; p != nil {
+		if n, ok := p.OrigName[id]; ok {
+			return n
+		}
+	}
+	return id.Name
 }
